@@ -294,6 +294,18 @@ def strJustified (fs : List Field) (s : Schema) (field : String) (mn mx : Int) (
      | none => false)
   | none => false
 
+/-- the members of an all-string enum -/
+def enumStrs : List Json → Option (List String)
+  | [] => some []
+  | .str x :: rest => (enumStrs rest).map (x :: ·)
+  | _ :: _ => none
+
+/-- the declaration is a plain string enum whose table is exactly the schema's `enum` list -/
+def strEnumJustified (vals : List Json) (s : Schema) : Bool :=
+  match enumStrs vals, s.node.enum with
+  | some l, some vs => enumStrs vs == some l
+  | _, _ => false
+
 /-- element types whose slices decode element by element: everything but `uint8` and named aliases of it, whose
     slices are byte strings (K22) -/
 def elemOK (env : Env) : GoTy → Bool
@@ -347,6 +359,9 @@ def certAll (env : Env) (defs : Spec.Defs) : Nat → GoTy → Schema → Bool
                 s.node.props.all (fun p => match bindKey fs p.1 with
                   | some fld => fld.jsonKey == p.1 && certAll env defs f fld.ty p.2
                   | none => false)
+            | .enum vals false _ _ _, .string =>
+                d.hasMethod && (s.node.types == ["string"] || s.node.types == []) && strEnumJustified vals s &&
+                s.node.allOf.isEmpty && s.node.anyOf.isEmpty && !s.node.hasNot
             | _, _ => false)
          | none => false)
       | .slice t =>
@@ -402,6 +417,7 @@ def certCov (env : Env) (defs : Spec.Defs) : Nat → GoTy → Schema → Bool
               s.node.props.all (fun p => match bindKey fs p.1 with
                 | some fld => topCovered vs fld.name p.2 && certCov env defs f fld.ty p.2
                 | none => false)
+          | .enum _ false _ _ _, .string => true
           | _, _ => false)
        | none => false)
     | .slice t => leafPlain s && (match s.node.items with | some it => topFree it && certCov env defs f t it | none => false)
